@@ -43,7 +43,7 @@ open PycModel.DeclSkel PycModel.DeclParse PycModel.TransUnit in
 prescribes.**  The fragment: any number of external declarations, each a file-scope declaration
 (specifiers: qualifiers, storage classes other than `typedef`, function specifiers, type keywords;
 init-declarators with pointers, qualifiers, array and `()` suffixes and assignment-expression
-initializers) or a function definition - with `()` or with a prototype parameter list of named
+initializers) or a function definition - with `()`, `( void )` or a prototype parameter list of named
 parameters, whose names are registered in the body's scope - whose body is a block of such declarations and of the
 statements of `wellformed_statements_are_accepted` (which nest to any depth, nested blocks with
 declarations of their own and `for` loops whose first clause is a declaration included); every
@@ -126,8 +126,8 @@ example :
             mk .UnaryOp (tc 16) [.str "*", mk .ID (tc 16) [.str "b"]]]]]]]]]) := by
   let prog : List Ext :=
     [.fdefp { specs := [("INT", "int")],
-              fd := { x := "add", params := { first := { specs := [("INT", "int")], d := .name "a" },
-                                              more := [{ specs := [("CONST", "const"), ("INT", "int")], d := .ptr [[]] (.name "b") }] } },
+              fd := { x := "add", params := .named { first := { specs := [("INT", "int")], d := .name "a" },
+                                                     more := [{ specs := [("CONST", "const"), ("INT", "int")], d := .ptr [[]] (.name "b") }] } },
               body := .cons (.ret (some (.bin "PLUS" "+" (.id "a") (.pre "TIMES" "*" (.id "b"))))) .nil }]
   have hint : SpecToks false [("INT", "int")] := by simp [SpecToks, typeSpecSimple]
   have hval : SpecVals [("INT", "int")] := by
@@ -143,6 +143,35 @@ example :
       rcases ht with rfl | rfl <;> exact ⟨by decide, by decide⟩
     · exact .cons _ _ (StmtSkel.WFS.retSome _ (.bin _ 8 _ _ _ _ (by decide) (by omega) (.id _ _)
         (.pre _ _ _ _ (by omega) (by decide) (.id _ _) (fun _ => rfl)))) .nil
+  exact parse_translation_unit prog hw 200 (by decide)
+
+open PycModel.DeclSkel PycModel.DeclParse PycModel.TransUnit PycModel.Params in
+/-- non-vacuity, the parameter list `( void )`, checked by the kernel: `int main ( void ) { return 0 ; }` -/
+example :
+    (parseCore 200 ([("INT", "int"), ("ID", "main"), ("LPAREN", "("), ("VOID", "void"), ("RPAREN", ")"), ("LBRACE", "{"),
+        ("RETURN", "return"), ("INT_CONST_DEC", "0"), ("SEMI", ";"), ("RBRACE", "}")].map (fun t => SEv.tok t.1 t.2) ++ [.eof])).1 =
+    .ast (mk .FileAST none [.list [
+      mk .FuncDef (tc 1) [
+        mk .Decl (tc 1) [.str "main", .list [], .list [], .list [], .list [],
+          mk .FuncDecl (tc 1) [
+            mk .ParamList (tc 3) [.list [
+              mk .Typename (tc 3) [.none, .list [], .none,
+                mk .TypeDecl none [.none, .list [], .none, mk .IdentifierType (tc 3) [.list [.str "void"]]]]]],
+            mk .TypeDecl (tc 1) [.str "main", .list [], .none, mk .IdentifierType (tc 0) [.list [.str "int"]]]],
+          .none, .none],
+        .none,
+        mk .Compound (tc 5) [.list [mk .Return (tc 6) [mk .Constant (tc 7) [.str "int", .str "0"]]]]]]]) := by
+  let prog : List Ext :=
+    [.fdefp { specs := [("INT", "int")], fd := { x := "main", params := .void },
+              body := .cons (.ret (some (.const "INT_CONST_DEC" "0" "int"))) .nil }]
+  have hint : SpecToks false [("INT", "int")] := by simp [SpecToks, typeSpecSimple]
+  have hval : SpecVals [("INT", "int")] := by
+    intro t ht; simp only [List.mem_singleton] at ht; subst ht; exact ⟨by decide, by decide⟩
+  have hw : ∀ e ∈ prog, WFExt (fun _ => false) e := by
+    intro e he
+    simp only [prog, List.mem_singleton] at he
+    subst he
+    exact ⟨hint, hval, rfl, trivial, .cons _ _ (StmtSkel.WFS.retSome _ (.const _ _ _ _ (by decide))) .nil⟩
   exact parse_translation_unit prog hw 200 (by decide)
 
 end PycModel.C01
